@@ -148,6 +148,11 @@ func c17Histories() []c17History {
 		hs = append(hs, c17History{name: "same-name-two-codes/app-then-base", xmls: []string{y, x}})
 		hs = append(hs, c17History{name: "same-name-two-codes/on-top-of-base", xmls: []string{base[0], x, y}})
 	}
+	// a dictionary that declares applications and commands but not a single AVP
+	hs = append(hs, c17History{name: "commands-only", xmls: []string{`<?xml version="1.0" encoding="UTF-8"?><diameter><application id="0" name="Relay">
+<command code="257" short="CE" name="Capabilities-Exchange"><request></request><answer></answer></command>
+<command code="280" short="DW" name="Device-Watchdog"><request></request><answer></answer></command></application>
+<application id="9102" type="auth" name="Relayed"></application></diameter>`, fam[0]}})
 	// one file with several <application> elements: bare re-declarations of already loaded
 	// applications (as one writes to name a dependency) before, between and after populated ones
 	multi := func(order string) string {
@@ -387,6 +392,17 @@ func c17RunHistory(h c17History, ctx *ev.Ctx) (queries int, cs *C17Case, what st
 		dir = d
 		defer os.RemoveAll(dir)
 	}
+	// before anything is loaded: a parser without a single definition still hands out the opaque
+	// placeholder for every numeric code (a relay that forwards AVPs it knows nothing about)
+	{
+		now := map[string]bool{}
+		n, q, s := c17Queries(p, m, prev, now)
+		queries += n
+		if s != "" {
+			return queries, &C17Case{History: h.name, Step: 0, Query: q}, fmt.Sprintf("before any dictionary is loaded, %s: %s", q, s)
+		}
+		prev = now
+	}
 	for i, x := range h.xmls {
 		var lerr error
 		if h.viaFile {
@@ -568,7 +584,7 @@ func runC17(ctx *ev.Ctx) {
 	}
 	ctx.Set("lookups_compared", total)
 	ctx.AddEvals(total, total)
-	ctx.Rule = "a data type registered by the application (datatype.Available + datatype.Decoder) after the process has decoded messages, declared by a dictionary loaded afterwards, is encoded and decoded; three child processes whose first use of dict.Default is Load / LoadFile of a dictionary that re-declares embedded AVPs / one lookup and then the Load (control): the definitions loaded last win in all three, which resolve identically; the generated-family and reload histories also through dict.NewParser(file1, file2, ...) in one call (five times each): argument order is load order; loading histories: a dictionary loaded again after another one redefined its AVPs and a file edited and reloaded from the same path (through Load and through LoadFile with temporary files); one dictionary declaring an AVP name under two codes, the later one with the lower code; one application id declared under two types by successive loads; dictionary files with several application elements (bare re-declarations of loaded applications before / between / after populated ones); the embedded dictionaries (extracted from diam/dict/default.go) in default order, every rotation and every adjacent swap; a generated family of four 3-AVP dictionaries that redefine each other's codes and names across application 0 / 4 / 16777251 and vendor variants, in all 24 orders, alone and on top of the base dictionary. After every Load - and after Loads that are rejected (a re-declared command, an undeclarable data type, truncated XML) following the first and the last dictionary of each history: FindAVPWithVendor by uint32 code, by int code and by name, FindAVP by int, FindCommand and App(id[,type]) for every application (loaded, children of the parent map, 0, an unrelated id) x every code / name present anywhere plus +-1 neighbours x vendor {declared, 0, another, wildcard}, plus every code looked up under two different vendor ids directly after one another, (the key space is that of ALL dictionaries of the history, so keys are also looked up while still undefined) are compared with the reference model, and everything resolvable before the Load must still be. Distinct by (history, query)."
+	ctx.Rule = "a data type registered by the application (datatype.Available + datatype.Decoder) after the process has decoded messages, declared by a dictionary loaded afterwards, is encoded and decoded; three child processes whose first use of dict.Default is Load / LoadFile of a dictionary that re-declares embedded AVPs / one lookup and then the Load (control): the definitions loaded last win in all three, which resolve identically; the generated-family and reload histories also through dict.NewParser(file1, file2, ...) in one call (five times each): argument order is load order; every history is also queried before its first load (an empty parser hands out placeholders), and one history starts with a dictionary that declares commands but no AVP; loading histories: a dictionary loaded again after another one redefined its AVPs and a file edited and reloaded from the same path (through Load and through LoadFile with temporary files); one dictionary declaring an AVP name under two codes, the later one with the lower code; one application id declared under two types by successive loads; dictionary files with several application elements (bare re-declarations of loaded applications before / between / after populated ones); the embedded dictionaries (extracted from diam/dict/default.go) in default order, every rotation and every adjacent swap; a generated family of four 3-AVP dictionaries that redefine each other's codes and names across application 0 / 4 / 16777251 and vendor variants, in all 24 orders, alone and on top of the base dictionary. After every Load - and after Loads that are rejected (a re-declared command, an undeclarable data type, truncated XML) following the first and the last dictionary of each history: FindAVPWithVendor by uint32 code, by int code and by name, FindAVP by int, FindCommand and App(id[,type]) for every application (loaded, children of the parent map, 0, an unrelated id) x every code / name present anywhere plus +-1 neighbours x vendor {declared, 0, another, wildcard}, plus every code looked up under two different vendor ids directly after one another, (the key space is that of ALL dictionaries of the history, so keys are also looked up while still undefined) are compared with the reference model, and everything resolvable before the Load must still be. Distinct by (history, query)."
 	ctx.Assume = []string{"reference model refdict: application -> documented parents (16777251->4, 16777238->4, 4->1) -> base; exact vendor or wildcard; last load wins"}
 }
 
